@@ -327,6 +327,22 @@ def run_property(prop, tier, seed, update_baseline=False):
             path = write_replay(prop, key.replace(":", "-"), {"property": prop, "from": "runtime contract monitor (real call)",
                                                               "key": key, **f})
             violations.append((path, True, key))
+            # a failed obligation of the same function that had no input so far: the monitored call is a real input on
+            # which this function breaks its contract -> the obligation's replay file carries it
+            for vi, (vpath, has_input, vkey) in enumerate(violations):
+                if not has_input and vkey.startswith(f["function"] + "#"):
+                    try:
+                        full = os.path.join(OUT, vpath)
+                        with open(full, encoding="utf-8") as fh:
+                            pl = json.load(fh)
+                        pl.update({"failing_call_found_by": "runtime contract monitor", "monitor_form_md": f.get("monitor_form_md"),
+                                   "convert_kwargs": f.get("convert_kwargs"), "form": f.get("form"),
+                                   "clause": f.get("clause"), "observed": f.get("observed"), "args": f.get("args")})
+                        with open(full, "w", encoding="utf-8") as fh:
+                            json.dump(pl, fh, indent=1, default=repr)
+                        violations[vi] = (vpath, True, vkey)
+                    except OSError:
+                        pass
         mon = {"forms_converted": mon["forms"], "wall_s": mon["wall_s"], "failures": len(mon["failures"]),
                "adapter_errors": mon.get("adapter_errors", []),
                "functions": mon["stats"],
